@@ -338,3 +338,130 @@ _add(Cond('frame_directional_axis1_mixed_kinds', [('k0', 'int'), ('k1', 'int'), 
         functions=['TypeBlocks._fillna_directional_axis_1'],
         bounds='one-row frame of 3 columns; the kind of every column symbolic over (float64, int64, bool), float cells possibly missing (symbolic); every block layout that can hold the kinds',
         route='Frame.fillna_forward / fillna_backward(axis=1): a value carried into a column of another kind arrives unchanged (value and type)', timeout=300))
+
+
+# ---------------------------------------------------------------- missing-value KINDS: NaN, None, NaT in float / object / datetime columns, every layout
+
+import numpy as _real_np  # noqa: E402  (concrete datetime64 scalars are NumPy's own objects in both worlds)
+
+NAT = _real_np.datetime64('NaT')
+MISS_KINDS = (  # (dtype, values for rows 0..2, missing marker in the library, tag)
+    ('float64', (1.5, 2.5, 3.5), 'nan'), ('object', ('x', 'y', 'z'), 'none'), ('object', (7, 'y', 2.5), 'nan'),
+    ('datetime64[D]', tuple(_real_np.datetime64(f'2020-01-0{d}') for d in (1, 2, 3)), 'nat'), ('int64', (7, 8, 9), None))
+PATTERNS = ((False, False, False), (True, False, False), (False, True, False), (True, True, False), (False, False, True))
+
+
+def _obs_cell(env, v):
+    import datetime
+    if isinstance(v, _real_np.datetime64):
+        return M if _real_np.isnat(v) else str(v)
+    if isinstance(v, datetime.date):
+        return v.isoformat()       # a datetime64[D] cell of a column that became object (filled with a non-date) is a date
+    if v is None:
+        return M
+    return env.obs(v)
+
+
+def _obs_rows(env, rows):
+    return [[_obs_cell(env, v) for v in row] for row in rows]
+
+
+def body_missing_kinds(env, k0, k1, p0, p1, part='cells'):
+    from vf import rt
+    ks = []
+    for k, choices in ((k0, (0, 1, 3)), (k1, (2, 3, 4))):
+        for c in range(3):
+            if k == c:
+                ks.append(choices[c])
+    ks.append(4)                                      # third column: int64, never missing
+    pats = []
+    for p in (p0, p1):
+        for c in range(len(PATTERNS)):
+            if p == c:
+                pats.append(PATTERNS[c])
+    pats.append((False, False, False))
+    for c in range(2):
+        if MISS_KINDS[ks[c]][2] is None:
+            pats[c] = (False, False, False)
+    def run():
+        sf = env.sf
+        from static_frame.core.type_blocks import TypeBlocks
+        xp = env.xp
+        marker = {'nan': env.nan, 'none': None, 'nat': NAT, None: None}
+        cols = [[(marker[MISS_KINDS[ks[c]][2]] if pats[c][r] else MISS_KINDS[ks[c]][1][r]) for r in range(3)] for c in range(3)]
+        ref = [[(M if pats[c][r] else _obs_cell(env, MISS_KINDS[ks[c]][1][r])) for c in range(3)] for r in range(3)]
+        flags = [[pats[c][r] for c in range(3)] for r in range(3)]
+        dts = [MISS_KINDS[k][0] for k in ks]
+        index, columns = [100, 101, 102], ['a', 'b', 'c']
+        got, exp = [], []
+        for lay in _lays_for([(k, dts[i]) for i, k in enumerate(ks)]):
+            tb = TypeBlocks.from_blocks(layouts.build_blocks_typed(env, cols, dts, lay))
+            f = sf.Frame(tb, index=index, columns=columns)
+            out, want = [], []
+            if part == 'cells':
+                out.append(env.obs(f.isna().values.tolist())); want.append(flags)
+                out.append(env.obs(f.notna().values.tolist())); want.append([[not x for x in row] for row in flags])
+                out.append(env.obs(f.count(axis=0).values.tolist())); want.append([sum(1 for r in range(3) if not flags[r][c]) for c in range(3)])
+                out.append(env.obs(f.count(axis=1).values.tolist())); want.append([sum(1 for c in range(3) if not flags[r][c]) for r in range(3)])
+                for c in range(3):
+                    s = f.iloc[:, c]
+                    out.append([env.obs(s.isna().values.tolist()), env.obs(s.count()), [_obs_cell(env, v) for v in s.dropna().values.tolist()] if MISS_KINDS[ks[c]][0] != 'datetime64[D]' else [_obs_cell(env, v) for v in s.dropna().values]])
+                    want.append([[flags[r][c] for r in range(3)], sum(1 for r in range(3) if not flags[r][c]), [ref[r][c] for r in range(3) if not flags[r][c]]])
+            elif part == 'fill':
+                for name, fwd in (('fillna_forward', True), ('fillna_backward', False)):
+                    r = getattr(f, name)(axis=0)
+                    out.append(_obs_rows(env, [[r.iloc[i, j] for j in range(3)] for i in range(3)]))
+                    want.append(by_axis(ref, 0, lambda l: ref_directional(l, fwd, 0)))
+                for c in range(2):
+                    s = f.iloc[:, c]
+                    out.append([[_obs_cell(env, v) for v in s.fillna_forward().values], [_obs_cell(env, v) for v in s.fillna_backward(1).values]])
+                    line = [ref[r][c] for r in range(3)]
+                    want.append([ref_directional(line, True, 0), ref_directional(line, False, 1)])
+                r = f.fillna(-7)
+                out.append(_obs_rows(env, [[r.iloc[i, j] for j in range(3)] for i in range(3)]))
+                want.append([[(-7 if flags[i][j] else ref[i][j]) for j in range(3)] for i in range(3)])
+            else:
+                for axis, cond_name in ((0, 'any'), (0, 'all'), (1, 'any'), (1, 'all')):
+                    agg = all if cond_name == 'all' else any
+                    d = f.dropna(axis=axis, condition=getattr(xp, cond_name))
+                    if axis == 0:
+                        keep = [r for r in range(3) if not agg(flags[r])]
+                        want.append([[index[r] for r in keep], columns])
+                    else:
+                        keep = [c for c in range(3) if not agg([flags[r][c] for r in range(3)])]
+                        want.append([index, [columns[c] for c in keep]])
+                    out.append([env.obs(d.index.values.tolist()), env.obs(d.columns.values.tolist())])
+            got.append(out); exp.append(want)
+        return got, exp
+    return rt.untraced(run)
+
+
+def _which(v, n):
+    for k in range(n):
+        if v == k:
+            return k
+    raise AssertionError('out of range')
+
+
+
+
+
+def _lays_for(kinds):
+    out = []
+    for lay in layouts.compositions(len(kinds)):
+        j, ok = 0, True
+        for nd, w in lay:
+            if len(set(kinds[j:j + w])) > 1:
+                ok = False
+            j += w
+        if ok:
+            out.append(lay)
+    return out
+
+
+for _part in ('cells', 'fill', 'drop'):
+    _add(Cond(f'missing_value_kinds_all_layouts_{_part}', [('k0', 'int'), ('k1', 'int'), ('p0', 'int'), ('p1', 'int')], body_missing_kinds,
+        ranges={'k0': (0, 2), 'k1': (0, 2), 'p0': (0, 3), 'p1': (0, 3)}, fixed={'part': _part},
+        functions=['isna_array'] + (['Frame.dropna'] if _part == 'drop' else []),
+        bounds='3x3 frame: a column of symbolic kind (float64 with NaN / object with None / datetime64[D] with NaT), a column of symbolic kind (object with NaN / datetime64[D] with NaT / int64) and an int column; the missing pattern of each symbolic over 4 patterns; every block layout; ' + {'cells': 'isna / notna / count / Series.isna / count / dropna', 'fill': 'fillna_forward / fillna_backward (Frame axis 0, Series, limit) and fillna(v)', 'drop': 'Frame.dropna (any / all, both axes)'}[_part],
+        route='missing-value operations on NaN, None and NaT alike: per cell exactly as specified, for Frames in every layout and for their column Series', timeout=600))
